@@ -390,7 +390,9 @@ class Backend:
         elif act == "RETRY":
             if typ != "STEP":
                 self._bad(upd, "retry-non-step", op)
-            if ok and prev not in ("STARTED", "READY"):
+            if ok and prev == "READY":
+                self._bad(upd, "attempt-not-started", op)  # every attempt has its own START
+            elif ok and prev != "STARTED":
                 self._bad(upd, "retry-from-" + str(prev), op)
             delay = (upd.get("StepOptions") or {}).get("NextAttemptDelaySeconds", 0)
             if delay < 1:
@@ -407,7 +409,9 @@ class Backend:
         elif act in ("SUCCEED", "FAIL"):
             if typ not in ("STEP", "CONTEXT"):
                 self._bad(upd, "finish-" + typ, op)
-            if ok and prev not in ("STARTED", "READY"):
+            if ok and prev == "READY":
+                self._bad(upd, "attempt-not-started", op)
+            elif ok and prev != "STARTED":
                 self._bad(upd, "finish-from-" + str(prev), op)
             det = op.setdefault("StepDetails" if typ == "STEP" else "ContextDetails", {})
             if act == "SUCCEED":
